@@ -524,7 +524,7 @@ func C09(c *Ctx) {
 	c.R.Rule("C09-R1", "E5", "engine-made binding values are JSON-shaped", 5)
 	c.R.Rule("C09-R2", "E5", "script results are canonicalised", 1)
 	c.R.Rule("C09-R5", "E5", "emitted messages are canonicalised (they can be routed in memory to other machines and bound there)", 1)
-	c.R.Rule("C09-R3", "E6", "State serialises both fields unconditionally", 2)
+	c.R.Rule("C09-R3", "E6", "both fields of State are part of its serialised form", 2)
 	c.R.Rule("C09-R4", "E5", "a bindings map never contains itself", 2)
 	c.R.Rule("C09-R6", "E6", "state readers decode numbers the way the matcher knows them (float64)", 1)
 	c09Readers(c)
@@ -723,8 +723,11 @@ func C09(c *Ctx) {
 	if st, ok := corePkg.Types.Scope().Lookup("State").Type().Underlying().(*types.Struct); ok {
 		for i := 0; i < st.NumFields(); i++ {
 			tag := st.Tag(i)
-			bad := strings.Contains(tag, "omitempty") && strings.Contains(tag, "json:") || strings.Contains(tag, `json:"-"`)
-			c.R.Check(!bad, "C09-R3", "State."+st.Field(i).Name()+" always serialised", c.P.Pos(st.Field(i).Pos()), "tag: "+tag, "State."+st.Field(i).Name()+" is omitted from the JSON form when empty ("+tag+"): empty bindings come back as absent (nil), which branch evaluation treats differently")
+			// (omitempty is not a defect any more: since the repairs F29/F30 absent and empty bindings are
+			// treated alike by branch evaluation, by the action wrapper and by the interpreter, and an
+			// empty node name decodes to itself either way; the rule used to flag it)
+			bad := strings.Contains(tag, `json:"-"`) || !st.Field(i).Exported()
+			c.R.Check(!bad, "C09-R3", "State."+st.Field(i).Name()+" is part of the serialised form", c.P.Pos(st.Field(i).Pos()), "tag: "+tag, "State."+st.Field(i).Name()+" is not written out ("+tag+"): a reloaded machine continues without it")
 		}
 	} else {
 		c.R.Break("C09-R3: core.State not found")
